@@ -196,8 +196,9 @@ pub struct T1(pub Pay);
 #[derive(TargetedEvent, Debug)]
 pub struct T2(pub Pay);
 
+/// printable ASCII, so that the same pattern works for `alloc_slice` and `alloc_str`
 pub fn arena_byte(alloc_no: u64, i: usize) -> u8 {
-    ((alloc_no as usize).wrapping_mul(131).wrapping_add(i.wrapping_mul(7)).wrapping_add(i >> 8) & 0xff) as u8
+    33 + (((alloc_no as usize).wrapping_mul(131).wrapping_add(i.wrapping_mul(7)).wrapping_add(i >> 8)) % 90) as u8
 }
 
 pub fn arena_ok(alloc_no: u64, data: &[u8]) -> bool {
